@@ -513,6 +513,7 @@ func execute(c *run.Ctx, sc *scenario) run.Result {
 		return res
 	}
 	sub := &subject{site: site, input: input, cpu: sc.CPU, cut: sc.Cut, g: g, st: st, field: refField, lip: lip, witness: sc, desc: desc}
+	sub.pinchAt = func(q [3]int) bool { return weldPinchAt(rec, q, sc.Cut, sc.CPU) }
 	if sc.API != "Field.March" {
 		sub.seamTrigger = seamTrigger(rec, g, sc.Cut)
 		if sub.seamTrigger != "" {
@@ -593,7 +594,8 @@ func execute(c *run.Ctx, sc *scenario) run.Result {
 	return res
 }
 
-// thinFeature is the stated skip rule for features below the weld granule. polyform welds vertices
+// thinFeature is the stated skip rule for features below the weld granule (all entry points weld at 3
+// decimals of a world unit: the canvas after its own 4-decimal cell-unit weld, Field.March directly). polyform welds vertices
 // that round to the same 3 decimals of a world unit. The rule looks, on the sampled input only, for a
 // lattice point with two sign-changing incident edges whose linear-interpolation crossings can fall
 // into one such rounding cell although no mesh edge can join them: the two edges are collinear (both
@@ -614,6 +616,7 @@ func thinFeature(rec *recorder, g *region, cut, cpu float64) (string, bool) {
 		return lo1 <= hi2 && lo2 <= hi1
 	}
 	reach := 0.001*cpu + 2e-4
+	var clustered [][3]int // lattice points at which two or more crossings can round into one weld cell
 	for z := g.lo[2]; z < g.lo[2]+g.n[2]; z++ {
 		for y := g.lo[1]; y < g.lo[1]+g.n[1]; y++ {
 			for x := g.lo[0]; x < g.lo[0]+g.n[0]; x++ {
@@ -639,14 +642,18 @@ func thinFeature(rec *recorder, g *region, cut, cpu float64) (string, bool) {
 							}
 							continue
 						}
+						cp, cr := float64(q[p.axis]), float64(q[r.axis])
+						share := mayShareCell((cp+float64(p.sign)*p.t)/cpu, cp/cpu) && mayShareCell(cr/cpu, (cr+float64(r.sign)*r.t)/cpu)
+						if share && (len(clustered) == 0 || clustered[len(clustered)-1] != q) {
+							clustered = append(clustered, q)
+						}
 						f := q
 						f[p.axis] += p.sign
 						f[r.axis] += r.sign
 						if w, _ := rec.value(f); (w < cut) != (v < cut) {
 							continue // the face cuts this corner off: the two crossings are joined by a mesh edge
 						}
-						cp, cr := float64(q[p.axis]), float64(q[r.axis])
-						if mayShareCell((cp+float64(p.sign)*p.t)/cpu, cp/cpu) && mayShareCell(cr/cpu, (cr+float64(r.sign)*r.t)/cpu) {
+						if share {
 							return fmt.Sprintf("lattice point %v (sample - threshold = %g) changes side along axes %d and %d across an ambiguous cell face and both crossings round to one weld cell", q, v-cut, p.axis, r.axis), true
 						}
 					}
@@ -654,7 +661,44 @@ func thinFeature(rec *recorder, g *region, cut, cpu float64) (string, bool) {
 			}
 		}
 	}
+	// Two collapsing clusters at corners of one cell: each collapse alone removes a fan of the surface
+	// cleanly, but the strips of faces between the two clusters can be left hanging on one doubled edge.
+	for i, p := range clustered {
+		for _, q := range clustered[i+1:] {
+			if iabs(p[0]-q[0]) <= 1 && iabs(p[1]-q[1]) <= 1 && iabs(p[2]-q[2]) <= 1 {
+				vp, _ := rec.value(p)
+				vq, _ := rec.value(q)
+				return fmt.Sprintf("the neighbouring lattice points %v and %v (sample - threshold = %g and %g) each collect two or more crossings in one weld cell", p, q, vp-cut, vq-cut), true
+			}
+		}
+	}
 	return "", false
+}
+
+func iabs(a int) int {
+	if a < 0 {
+		return -a
+	}
+	return a
+}
+
+// weldPinchAt reports whether, per the sampled values, some sign-changing lattice edge incident to the
+// lattice point q has its linear-interpolation crossing within the weld distance of q (then the weld
+// can pull that crossing and others into one vertex at q).
+func weldPinchAt(rec *recorder, q [3]int, cut, cpu float64) bool {
+	v, _ := rec.value(q)
+	reach := 0.001*cpu + 2e-4
+	for a := 0; a < 3; a++ {
+		for _, d := range [2]int{-1, 1} {
+			n := q
+			n[a] += d
+			w, _ := rec.value(n)
+			if (v < cut) != (w < cut) && math.Abs(v-cut) <= reach*math.Abs(v-w) {
+				return true
+			}
+		}
+	}
+	return false
 }
 
 // seamTrigger looks for the input condition of the block-seam weld defect: a lattice point on a
@@ -781,7 +825,7 @@ func Spec() *run.Spec {
 			"closedness is judged on the vertex ids polyform returns (its weld is part of the behaviour); positions are merged by the oracle only to tell an unwelded seam from a hole",
 			"'within one cell of the true isosurface' is checked as: some lattice point below and some lattice point not below the threshold lie within one cell (+0.001*sqrt(3) world units of weld displacement) of the vertex - a sign change of a continuous field inside that ball - and, for analytic unions, |f(v)-c| <= L*h for the harness's own L-Lipschitz distance field",
 			"additionally every lattice edge whose ends are on different sides must carry a mesh vertex and the enclosed volume must lie between the number of cells entirely below the threshold and that number plus the straddling cells (a closed surface that separates the samples); both follow for any correct marching and need no knowledge of the table",
-			"stated skip rules (inconclusive, never held): a lattice sample within 1e-9 of the threshold (classification would depend on rounding); a surface feature thinner than the 0.001 weld (a lattice point with two sign-changing edges that no mesh edge can join - towards both neighbours of one axis, or across an ambiguous cell face - whose interpolated crossings can round to the same 3-decimal weld cell). The DESIGN's 2% rule was narrowed to these: a 2% band around lattice corners is hit by practically every analytic surface, and polyform's weld drops the faces it collapses, so ordinary merges near a lattice corner leave the surface closed (they are counted, not skipped)",
+			"stated skip rules (inconclusive, never held): a lattice sample within 1e-9 of the threshold (classification would depend on rounding); a surface feature thinner than the 0.001 weld (a lattice point with two sign-changing edges that no mesh edge can join - towards both neighbours of one axis, or across an ambiguous cell face - whose interpolated crossings can round to the same 3-decimal weld cell; or two lattice points of one cell that each collect two or more crossings in one weld cell). Safety net, also derived from the sampled values: an outcome whose ONLY anomaly is edges used by more than one face with balanced counts (no unmatched edge), every such edge having an endpoint within the weld distance of a lattice point whose sampled value puts a crossing within the weld distance of it, is reported as inconclusive \"degenerate (weld pinch)\"; anything with an unmatched edge stays a violation. The DESIGN's 2% rule was narrowed to these: a 2% band around lattice corners is hit by practically every analytic surface, and polyform's weld drops the faces it collapses, so ordinary merges near a lattice corner leave the surface closed (they are counted, not skipped)",
 			"resolutions above 12 cubes per unit (0.001 weld comparable to the cell) are out of reach",
 		},
 		MinNontrivial: map[string]int{"quick": 40, "thorough": 600},
